@@ -46,8 +46,25 @@ class B(A):
     pass
 
 
+class NeverEq:
+    def __eq__(self, o): return False
+    def __hash__(self): return 1
+    def __repr__(self): return 'NeverEq()'
+
+
+class AlwaysEq:
+    def __eq__(self, o): return True
+    def __hash__(self): return 2
+    def __repr__(self): return 'AlwaysEq()'
+
+
+# objects that are not equal to themselves / equal to everything: the very same object is used both as the
+# operand of IsEqual[...] and as the checked object
+NAN, NEVER_EQ, ALWAYS_EQ = float('nan'), NeverEq(), AlwaysEq()
+
+
 def objects():
-    return [0, 1, 2, -3, True, False, 1.0, 2.5, 'a', '', 'abc', None, b'x', (1,), [1], int, bool, str, A, B, A(), B(),
+    return [NAN, NEVER_EQ, ALWAYS_EQ, Box(v=NAN), Box(v=NEVER_EQ), [NAN], 0, 1, 2, -3, True, False, 1.0, 2.5, 'a', '', 'abc', None, b'x', (1,), [1], int, bool, str, A, B, A(), B(),
             Box(), Box(v=1), Box(v=True), Box(v='a'), Box(v=Box(v=1)), Box(v=Box(w=2)), Box(w=0, v=None),
             Box(v=Box(v=Box(v=2))), Box(real=1), Box(v=int), 1 + 0j, Box(v=[1])]
 
@@ -64,7 +81,7 @@ def p_isint(x): return isinstance(x, int)
 
 PREDS = [p_true, p_false, p_truthy, p_pos, p_even, p_len2, p_isint]
 TYPES = {'int': int, 'bool': bool, 'str': str, 'float': float, 'A': A, 'B': B, 'Box': Box, 'type': type}
-EQ_VALUES = [0, 1, True, 1.0, 'a', None, (1,), int]
+EQ_VALUES = [0, 1, True, 1.0, 'a', None, (1,), int, NAN, NEVER_EQ, ALWAYS_EQ]
 
 
 class Raised:
